@@ -258,6 +258,38 @@ def r17e(ctx, rep, cr):
     rep.floor('R17e', 'call sites of unconditional writers', n, 1)
 
 
+def r17f(ctx, rep, cr):
+    rep.rule('R17f', 'every incoming entry meets the view: in LWWMembershipState::merge the loop over `incoming` looks each entry up in '
+                     '`states` (the comparison that applies the full order, tie-break included) on every iteration — no entry is dropped '
+                     'beforehand. A pre-filter that keeps "the newest entry per member" with the bare supersedes() decides exact ties by '
+                     'position in the message, so one batch and the same updates delivered one by one end in different views')
+    f = rep.require_fn('R17f', cr, LW + '::merge')
+    if f is None:
+        return
+    defs = A.Defs(f)
+    looks = []
+    for c in A.calls_to(f, ('re', r'HashMap::<K, V, S(, A)?>::(get|get_mut|entry|contains_key)$')):
+        a = c.arg_local(0)
+        if a is None:
+            continue
+        fs, _ = A.origin_fields(f, a, defs)
+        fs = A.place_fields(c.args[0][1]) + fs
+        if any(x == LW + '.states' for x in fs):
+            looks.append(c)
+    dom = A.dominators(f)
+    inloop = [c for c in looks if any((re.search(r'Iterator>?::next$', x.generic) or re.search(r'Iterator>?::next$', x.resolved)) and x.bb in dom[c.bb] for x in A.calls(f))]
+    if not rep.floor('R17f', 'view lookups inside merge\'s loop', len(inloop), 1):
+        return
+    rep.analysed(f)
+    c = inloop[0]
+    if lib.loop_iterations_skipping(f, c, also={x.bb for x in inloop}) is not None:
+        rep.violation('R17f', f, 'entry-dropped-before-the-view', f.loc(c.line),
+                      'merge can skip an incoming entry without comparing it with the view: what survives the pre-selection depends on the '
+                      'order of entries inside the message')
+    else:
+        rep.holds('R17f', f, 'loop', 'every entry is compared with the view')
+
+
 def run(ctx, rep):
     cr = ctx.crate('tensor_chain')
     r17a(ctx, rep, cr)
@@ -265,3 +297,4 @@ def run(ctx, rep):
     r17c(ctx, rep, cr)
     r17d(ctx, rep, cr)
     r17e(ctx, rep, cr)
+    r17f(ctx, rep, cr)
